@@ -1,4 +1,103 @@
-import OdxVerif.Common.Sexp
-/-! driver stub for the dispatch family (to be written) -/
-open OdxVerif
-def main : IO Unit := driverMain fun _ => "(not-implemented)"
+import OdxVerif.Spec.Attribution
+/-! line-protocol driver for the dispatch model and the attribution spec (property C06)
+
+    (decode (strict t|f) (msg HEX) (walk HEX) (layer (gnrs CO*) (svc NAME (req CO?) (pos CO*) (neg CO*))*))
+       CO = (co NAME OUTCOME P*)   OUTCOME = ok|mismatch|error|foreign  (oracle for `msg`)
+       P  = (c HEX) | (m POS LEN) | (o)
+       → (ok (cands N*) (res ok (N N|none)*)|(res err decode|foreign) (attr (N (CO HEX)*)*) (unamb t|f))
+         cands = tree walk over `walk`; res = model `_decode(msg, cands)`; attr = spec: attributed services
+         for `msg`, each with its matching coding objects and their constant prefixes
+    (info (layer …))
+       → (ok (prefixes (N (CO HEX)*)*) (groups (K N*)*) (sids (N K)*))      K = byte | none -/
+open OdxVerif OdxVerif.Dispatch
+
+def parseParam : Sexp → Option Param
+  | .list [.atom "c", h] => do pure (.const (← bytesOfHex? (← h.asAtom?)))
+  | .list [.atom "m", p, l] => do pure (.matchReq (← p.asNat?) (← l.asNat?))
+  | .list [.atom "o"] => some .other
+  | _ => none
+
+def parseOutcome : String → Option Outcome
+  | "ok" => some .ok | "mismatch" => some .mismatch | "error" => some .error | "foreign" => some .foreign
+  | _ => none
+
+/-- a coding object and its oracle outcome -/
+def parseCoding : Sexp → Option (Coding × Outcome)
+  | .list (.atom "co" :: n :: o :: ps) => do
+    let name ← n.asNat?
+    let oc ← parseOutcome (← o.asAtom?)
+    let params ← ps.mapM parseParam
+    pure (⟨name, params⟩, oc)
+  | _ => none
+
+def parseService : Sexp → Option (Service × List (Coding × Outcome))
+  | .list (.atom "svc" :: n :: fields) => do
+    let name ← n.asNat?
+    let req ← (← Sexp.field? fields "req").mapM parseCoding
+    let pos ← (← Sexp.field? fields "pos").mapM parseCoding
+    let neg ← (← Sexp.field? fields "neg").mapM parseCoding
+    let r ← match req with
+      | [] => some none
+      | [r] => some (some r.1)
+      | _ => none
+    pure (⟨name, r, pos.map (·.1), neg.map (·.1)⟩, req ++ pos ++ neg)
+  | _ => none
+
+def parseLayer (fields : List Sexp) : Option (Layer × List (Coding × Outcome)) := do
+  let gn ← (← Sexp.field? fields "gnrs").mapM parseCoding
+  let svcs ← (fields.filter fun | .list (.atom "svc" :: _) => true | _ => false).mapM parseService
+  pure (⟨svcs.map (·.1), gn.map (·.1)⟩, gn ++ svcs.flatMap (·.2))
+
+def mkOracle (tbl : List (Coding × Outcome)) : Oracle := fun co _ =>
+  match tbl.find? (fun e => e.1.name == co.name) with
+  | some e => e.2
+  | none => .foreign
+
+def natsStr (xs : List Nat) : String := " ".intercalate (xs.map toString)
+def keyStr : Option Byte → String
+  | none => "none" | some b => toString b
+
+def msgStr (m : Msg) : String :=
+  let c := match m.2 with | some c => toString c.name | none => "none"
+  s!"({m.1.name} {c})"
+
+def handle (sx : Sexp) : String :=
+  match sx with
+  | .list (.atom "decode" :: fields) =>
+    match Sexp.field1? fields "strict", Sexp.field1? fields "msg", Sexp.field1? fields "walk",
+        Sexp.field? fields "layer" with
+    | some (.atom st), some (.atom m), some (.atom w), some lf =>
+      match bytesOfHex? m, bytesOfHex? w, parseLayer lf with
+      | some M, some W, some (L, tbl) =>
+        let dec := mkOracle tbl
+        let strict := st == "t"
+        let cands := (buildTree L).walk W
+        let res := match decodeCandidates dec strict L M cands with
+          | .ok ms => "(res ok " ++ " ".intercalate (ms.map msgStr) ++ ")"
+          | .error .decode => "(res err decode)"
+          | .error .foreign => "(res err foreign)"
+        let attr := (Spec.attributed dec L M).map fun s =>
+          let cos := (Spec.ownCodings s ++ L.gnrs).filter fun co => decide (Spec.Matches dec s M co)
+          s!"({s.name} " ++ " ".intercalate (cos.map fun co =>
+            s!"({co.name} {hexAtom (Spec.constPrefix (Spec.requestPrefix s) co.params)})") ++ ")"
+        let unamb := L.services.all fun s => decide (Spec.ownMatchCount dec s M ≤ 1)
+        s!"(ok (cands {natsStr (cands.map (·.name))}) {res} (attr {" ".intercalate attr}) (unamb {if unamb then "t" else "f"}))"
+      | _, _, _ => "(bad-args)"
+    | _, _, _, _ => "(bad-args)"
+  | .list (.atom "info" :: fields) =>
+    match Sexp.field? fields "layer" with
+    | some lf =>
+      match parseLayer lf with
+      | some (L, _) =>
+        let pref := L.services.map fun s =>
+          let rp := requestPrefix s
+          s!"({s.name} " ++ " ".intercalate ((candidateCodings s ++ L.gnrs).map fun co =>
+            s!"({co.name} {hexAtom (codedConstPrefix rp co)})") ++ ")"
+        let groups := (serviceGroups L).map fun g => s!"({keyStr g.1} {natsStr (g.2.map (·.name))})"
+        let sids := L.services.map fun s => s!"({s.name} {keyStr (Spec.sidOf s)})"
+        s!"(ok (prefixes {" ".intercalate pref}) (groups {" ".intercalate groups}) (sids {" ".intercalate sids}))"
+      | none => "(bad-args)"
+    | none => "(bad-args)"
+  | _ => "(bad-op)"
+
+def main : IO Unit := driverMain handle
